@@ -1050,6 +1050,17 @@ class Sim:
                     self.exclude('imap-part-owner-dies')
                     while p.outbox:
                         self.deliver(p)
+        if not self.allowed('tjob-result-in-flight'):
+            # open finding D25: a worker stopped by terminate_job() is reaped
+            # while the result of a job it had FINISHED before is still in
+            # flight - that job is reported Terminated as well (the terminated
+            # path has no grace period for results in the pipe)
+            for p in pool._pool:
+                if not p.alive and getattr(p, '_job_terminated', False) and \
+                        any(m[0] == READY for m in p.outbox):
+                    self.exclude('terminated-worker-result-in-flight')
+                    while p.outbox:
+                        self.deliver(p)
         before_pids = set(p.pid for p in pool._pool)
         self.tick_started = self.procs_started
         # exits in the order _join_exited_workers will reap them
